@@ -484,7 +484,8 @@ type paymentChecker struct {
 func (p *paymentChecker) PaymentsDisabled() bool {
 	rate, err := p.netmapCli.BasicIncomeRate()
 	if err != nil {
-		return false
+		// unknown, do not let containers be removed based on it
+		return true
 	}
 
 	return rate == 0
